@@ -1,6 +1,9 @@
 import Driver.Util
 import MpcVerif.Model.Mpcl
+import MpcVerif.Model.MpclPkg
 import MpcVerif.Model.MpclSsa
+import Driver.C03Backend
+import Driver.C03Lower
 
 /-!
 Line-protocol handler of property C03.
@@ -20,6 +23,9 @@ blanks (so the argument list *is* the token list):
             | ( IF e ( s* ) ( s* ) ) | ( FOR i lo cmp hi step ( s* ) ) | ( R e* )
   func    ::= ( FN nres ( ( x T )* ) ( s* ) )
   prog    ::= ( P main func* )
+            | ( PG main ( gdecl* ) func* )      package-level declarations (Model/MpclPkg.lean)
+  gdecl   ::= ( G x T ) | ( G x T n )          `var x T` / `var x T = n`
+            | ( GC x T n )                      `const x = n` / `const x T = n` (T: the type it is used at)
 
 Result: per evaluation the outputs' wire patterns in hex joined by `,`,
 evaluations joined by `;`; `E` for an evaluation on which the reference
@@ -129,6 +135,21 @@ def toProg : SExp → Option (Nat × Prog)
   | .list (.atom "P" :: .atom m :: fs) => do some (← m.toNat?, ← fs.mapM toFunc)
   | _ => none
 
+def toGDecl : SExp → Option GDecl
+  | .list [.atom "G", .atom x, t] => do some ⟨x, ← toTy t, none, false⟩
+  | .list [.atom "G", .atom x, t, .atom n] => do some ⟨x, ← toTy t, some (← n.toNat?), false⟩
+  | .list [.atom "GC", .atom x, t, .atom n] => do some ⟨x, ← toTy t, some (← n.toNat?), true⟩
+  | _ => none
+
+/-- A program with package-level declarations, elaborated (`Pkg.elab`); `none`
+inside: outside the class `Pkg.ok` the model gives a meaning to. -/
+def toPkgProg : SExp → Option (Nat × Option Prog)
+  | .list (.atom "PG" :: .atom m :: .list gs :: fs) => do
+    let main ← m.toNat?
+    let pk : Pkg := ⟨← gs.mapM toGDecl, ← fs.mapM toFunc⟩
+    some (main, if pk.ok main then some pk.elab else none)
+  | e => (toProg e).map fun (m, P) => (m, some P)
+
 def hexDigit (n : Nat) : Char :=
   if n < 10 then Char.ofNat (48 + n) else Char.ofNat (87 + n)
 
@@ -226,11 +247,17 @@ def handleSsa (inp : String) (toks : List String) : String :=
 def handle (args : List String) : String :=
   match args with
   | "SSASKIP" :: _ => "skip"
+  | "BACKEND" :: g :: mx :: toks => Drv.C03Backend.handle ((parseSExp toks).bind toSsa) g mx
   | "SSA" :: inp :: toks => handleSsa inp toks
+  | "LOWERREJ" :: toks => Drv.C03Lower.rej ((parseSExp toks).bind toProg)
+  | "LOWER" :: inp :: toks => match parseSExp toks with  -- tie of Ssa.lower to the real ssagen (Driver/C03Lower.lean)
+    | some (.list [.atom "LOWER", p, s]) => Drv.C03Lower.run (toProg p) (toSsa s) (inputTuples inp)
+    | _ => "bad-lower"
   | inp :: toks =>
-    match (parseSExp toks).bind toProg with
+    match (parseSExp toks).bind toPkgProg with
     | none => "bad-program"
-    | some (main, P) =>
+    | some (_, none) => "bad-package"
+    | some (main, some P) =>
       match P[main]? with
       | none => "bad-program"
       | some fn =>
